@@ -441,6 +441,15 @@ class Helper(object):
         return self.node.name
 
 
+def _kw_consumed(fn):
+    """The function reads its ``**kw`` parameter other than to pass it on as ``g(.., **kw)``."""
+    if fn.args.kwarg is None:
+        return False
+    kw = fn.args.kwarg.arg
+    passed = set(id(k.value) for n in ast.walk(fn) if isinstance(n, ast.Call) for k in n.keywords if k.arg is None and isinstance(k.value, ast.Name))
+    return any(isinstance(n, ast.Name) and n.id == kw and id(n) not in passed for n in ast.walk(fn))
+
+
 def _eligible_def(fn, any_name=False):
     if not isinstance(fn, ast.FunctionDef):
         return None
@@ -1065,7 +1074,8 @@ class Inliner(object):
                 rename[n] = new
                 taken.add(new)
         mapping, pre = {}, []
-        kw_consumed = kwparam is not None and getattr(fn, '_vt_kw_consumed', False)
+        kw_consumed = kwparam is not None and _kw_consumed(fn)      # (decided on the definition at hand: closures and
+        #                                                              synthesised methods are copies that _eligible_def never saw)
         if kw_consumed:
             # the helper uses its ``**kw`` as a mapping: bind it to the fresh dict the call would build
             real = binding[kwparam]
@@ -1238,13 +1248,17 @@ class Inliner(object):
             recv = f.value
         if h is None:
             return None
-        # the generator's arguments are evaluated once, when the loop starts, while its body now runs interleaved with
-        # BODY: they must be constants or names the consuming loop does not re-bind
-        # (any other expression is bound to a temporary of its own before the loop, see _bind)
-        rebound = _stored_names([s])
-        for a in list(call.args) + [k.value for k in call.keywords]:
-            if _simple_arg(a) and not (isinstance(a, ast.Constant) or (isinstance(a, ast.Name) and a.id not in rebound)):
-                raise CannotInline('generator argument is not a name the consuming loop leaves alone')
+        # BODY runs between the generator's iterations: what the generator received by reference (plain names / attribute
+        # chains are substituted, not copied into a parameter of its own) must not be re-bound by BODY -- the generator
+        # would go on with the object it was called with
+        body_stored = _stored_names(s.body) | set(n.id for n in ast.walk(s.target) if isinstance(n, ast.Name))
+        attr_stored = set(n.attr for st in s.body for n in ast.walk(st) if isinstance(n, ast.Attribute) and isinstance(n.ctx, (ast.Store, ast.Del)))
+        for a in list(call.args) + [k.value for k in call.keywords] + ([recv] if recv is not None else []):
+            for n in ast.walk(a):
+                if isinstance(n, ast.Name) and n.id in body_stored:
+                    raise CannotInline('the loop body re-binds %s, which the generator received' % n.id)
+                if isinstance(n, ast.Attribute) and n.attr in attr_stored:
+                    raise CannotInline('the loop body stores an attribute the generator received (.%s)' % n.attr)
         pre, body = self._bind(h, call, recv, caller_names, None)
         loop = body[-1]
         ph = loop.body[-1]
